@@ -187,6 +187,13 @@ def _call(args):
 
 
 _EARLY_STOPPED = [False]
+_KNOWN_KEYS = []
+
+
+def _known_keys():
+    if not _KNOWN_KEYS:
+        _KNOWN_KEYS.append({k["key"] for k in load_known()})
+    return _KNOWN_KEYS[0]
 
 
 def pmap(func, items, nproc=None, chunksize=1):
@@ -217,7 +224,7 @@ def pmap(func, items, nproc=None, chunksize=1):
                 harness_error(err)
             results[idx] = res
             got += 1
-            if stop_early and getattr(res, "viol", None):
+            if stop_early and any(v["sig"] not in _known_keys() for v in (getattr(res, "viol", None) or [])):
                 pool.terminate()
                 stopped = True
                 break
